@@ -6,9 +6,9 @@ d = os.path.abspath(sys.argv[1])
 env = dict(os.environ, GOFLAGS="-mod=mod", GOPROXY="off", GOSUMDB="off", GOTOOLCHAIN="local")
 meta = json.load(open(d + "/meta.json"))
 cmd = meta["demo_cmd"]
-dest = re.search(r"cp demo_test.go (?:<\w+>/)?(\S+)", cmd).group(1)
+dest = re.search(r"cp demo_test.go (?:<[^>]+>/)?(\S+)", cmd).group(1)
 gotest = cmd[cmd.index("go test"):]
-gotest = re.sub(r"<\w+>/", "", gotest)
+gotest = re.sub(r"<[^>]+>/", "", gotest)
 base = json.load(open("/root/.vp/BASELINE.json"))
 stable = {}
 for t in base["stable_pass"]:
